@@ -19,6 +19,7 @@ import (
 	"github.com/llir/llvm/vhook"
 
 	"verif/fw"
+	"verif/gen"
 	"verif/sched"
 )
 
@@ -124,12 +125,36 @@ type c13mod struct {
 	block bool // block / instruction level printers are meaningful (IDs already assigned)
 }
 
+// c13generated is a module holding the default variant of every catalogue production the parser
+// accepts: printing it runs (nearly) every LLString/Type/Ident path of the library under TSan.
+var c13genOnce sync.Once
+var c13genText string
+
+func c13generated() *ir.Module {
+	c13genOnce.Do(func() {
+		var vs []gen.Variant
+		for i, e := range gen.Catalogue() {
+			for _, v := range gen.Variants(e, i, 0) {
+				if v.Solo {
+					continue
+				}
+				if _, errs, pan := parseTry(gen.Module([]gen.Variant{v})); errs == "" && pan == "" {
+					vs = append(vs, v)
+				}
+			}
+		}
+		c13genText = gen.Module(vs)
+	})
+	return c13parse(c13genText)
+}
+
 var c13mods = []c13mod{
 	{"P1-parsed-unnamed", func() *ir.Module { return c13parse(c13P1) }, true},
 	{"P2-parsed-named", func() *ir.Module { return c13parse(c13P2) }, true},
 	{"P3-parsed-2funcs", func() *ir.Module { return c13parse(c13P3) }, true},
 	{"K1-constructed-never-printed", c13K, false},
 	{"K2-constructed-printed-once", func() *ir.Module { m := c13K(); _ = m.String(); return m }, true},
+	{"P4-generated-all-kinds", c13generated, true},
 }
 
 // ---- thread bodies -------------------------------------------------------------------------------
@@ -261,6 +286,9 @@ func c13scenarios(quick bool) []c13scenario {
 				if md.name == "P3-parsed-2funcs" && !(i <= 3 && j <= 3) {
 					continue
 				}
+				if md.name == "P4-generated-all-kinds" && !(i == 0 && j <= 1) {
+					continue // whole-module printers only (about 230 lock operations per thread)
+				}
 				sc := c13scenario{Name: fmt.Sprintf("%s/%s||%s", md.name, bi.name, bj.name), Mod: mi, Bodies: []int{i, j}, Bound: -1}
 				if i <= 1 && j <= 1 && md.name != "P2-parsed-named" && quick {
 					// two whole-module printers: all interleavings in thorough (48620 each),
@@ -271,6 +299,13 @@ func c13scenarios(quick bool) []c13scenario {
 				if quick {
 					sc.MaxExec = 60000
 				}
+				if md.name == "P4-generated-all-kinds" {
+					sc.Bound = 1
+					if !quick {
+						sc.Bound = 2
+						sc.MaxExec = 40000
+					}
+				}
 				out = append(out, sc)
 			}
 		}
@@ -279,7 +314,7 @@ func c13scenarios(quick bool) []c13scenario {
 		if !quick {
 			b3 = 3
 		}
-		if md.name != "P2-parsed-named" {
+		if md.name != "P2-parsed-named" && md.name != "P4-generated-all-kinds" {
 			out = append(out, c13scenario{Name: md.name + "/m.String||m.String||f.LLString", Mod: mi, Bodies: []int{0, 0, 2}, Bound: b3, MaxExec: 400000})
 			if !quick {
 				out = append(out, c13scenario{Name: md.name + "/m.String||m.WriteTo||f2.LLString", Mod: mi, Bodies: []int{0, 1, 3}, Bound: b3, MaxExec: 400000})
